@@ -249,6 +249,9 @@ _c("VCtxInterrupt", "ctx", "Any", None, [], _abort, fault="abort")
 # sinks
 _c("VFileSink", "sink", "Float", "Float", [("path", REQ)], _filesink)
 _c("VNullSink", "sink", "Float", "Float", [("tag", "t")], lambda d, w, tag="t": None)
+_c("VSrcDefaultSeries", "source", "NoData", "Coll", [("value", 42.0), ("n", 2)], lambda d, w, value=42.0, n=2: [float(value) + i for i in range(int(n))])
+_c("VNullSinkColl", "sink", "Coll", "Coll", [("tag", "t")], lambda d, w, tag="t": None)
+_c("VStore", "source", "NoData", "Float", [("value", 6.0)], lambda d, w, value=6.0: float(value))
 _c("VNoDocSrc", "source", "NoData", "Float", [("value", 3.0)], lambda d, w, value=3.0: float(value))
 _c("VNoDocSink", "sink", "Float", "Float", [("tag", "t")], lambda d, w, tag="t": None)
 _c("VNoDocProbe", "probe", "Float", None, [("scale", 1.0)], lambda d, w, scale=1.0: d * scale)
